@@ -493,7 +493,8 @@ def _relabel_mutations_node(
     sequence_length = remove_position[-1]
 
     output = np.full(num_mutations, tskit.NULL, dtype=np.int32)
-    nodes_map = np.full(num_nodes, tskit.NULL, dtype=np.int32)
+    # a node that has no edge (yet) keeps its id, e.g. a mutation above an isolated sample
+    nodes_map = np.arange(num_nodes, dtype=np.int32)
     a, b, m = 0, 0, 0
     left = 0.0
     while left < sequence_length:
@@ -518,6 +519,10 @@ def _relabel_mutations_node(
             assert nodes_map[mutations_node[m]] != tskit.NULL
             output[m] = nodes_map[mutations_node[m]]
             m += 1
+
+    while m < num_mutations:  # sites at or beyond the right end of the last edge
+        output[m] = nodes_map[mutations_node[m]]
+        m += 1
 
     return output
 
